@@ -62,6 +62,12 @@ class Tr:
         self.ty = dict(tys)
 
     def call(self, e):
+        # numerical-control keywords (eps=, algorithm=) do not change what is computed in exact arithmetic, and a keyword
+        # passing on an optional argument that this variant leaves at None passes None: both are dropped
+        kws = [k for k in e.keywords if not (k.arg in ("eps", "algorithm") or
+               (isinstance(k.value, ast.Name) and k.value.id in self.none_args))]
+        if len(kws) != len(e.keywords):
+            e = ast.Call(func=e.func, args=e.args, keywords=kws)
         f = e.func
         # methods
         if isinstance(f, ast.Attribute) and f.attr == "clamp" and len(e.args) == 1 and isinstance(e.args[0], ast.Constant) \
@@ -120,6 +126,11 @@ class Tr:
             if ty != "L":
                 raise Unsupported("builtin sum of kind " + ty)
             return "T", "(t_pysum %s)" % x
+        if n == "hadamard_sum" and len(e.args) == 1 and not e.keywords:
+            ty, x = self.texpr(e.args[0])
+            if ty != "L":
+                raise Unsupported("hadamard_sum of kind " + ty)
+            return "R", "(t_hsum %s)" % x
         if n == "len" and len(e.args) == 1 and not e.keywords:
             ty, x = self.texpr(e.args[0])
             if ty != "S":
@@ -154,8 +165,19 @@ class Tr:
             return "R", "(t_sum %s)" % x
         if n is not None and "." not in n and ("tn." + n) in self.defined:
             n = "tn." + n             # a sibling function of the same module
+        if n in self.defined and len(self.defined[n]) == 4 and e.keywords and all(k.arg in self.defined[n][3] for k in e.keywords):
+            # keyword arguments of an already translated function: put them in positional order
+            names = self.defined[n][3]
+            bypos = dict(zip(names, e.args))
+            for k in e.keywords:
+                if k.arg in bypos:
+                    raise Unsupported("argument %s given twice" % k.arg)
+                bypos[k.arg] = k.value
+            if set(bypos) != set(names):
+                raise Unsupported("call of %s without all its arguments" % n)
+            e = ast.Call(func=e.func, args=[bypos[x] for x in names], keywords=[])
         if n in self.defined and not e.keywords:
-            cn, rty, argtys = self.defined[n]
+            cn, rty, argtys = self.defined[n][:3]
             a = [self.texpr(x) for x in e.args]
             if [t for t, _ in a] != argtys:
                 raise Unsupported("call of %s with argument kinds %s" % (n, [t for t, _ in a]))
@@ -266,10 +288,21 @@ class Tr:
             if ty != "B":
                 raise Unsupported("not on non-boolean")
             return "B", "(~ %s)" % x
+        if isinstance(e, ast.BinOp) and isinstance(e.op, ast.Mult) and isinstance(e.left, ast.List) and len(e.left.elts) == 1:
+            # [t] * k: the list of k copies of t
+            ty, x = self.texpr(e.left.elts[0])
+            if ty != "T":
+                raise Unsupported("repetition of a non-tensor")
+            return "L", "(repeat %s %s)" % (x, self.nexpr(e.right))
         if isinstance(e, ast.BinOp):
             tl, l = self.texpr(e.left)
             tr, r = self.texpr(e.right)
             op = type(e.op).__name__
+            if (tl, tr) in (("N", "R"), ("R", "N")):          # an integer in real arithmetic
+                if tl == "N":
+                    tl, l = "R", "(INR %s)" % l
+                else:
+                    tr, r = "R", "(INR %s)" % r
             if op in ("BitAnd", "BitOr", "BitXor"):
                 if tl == "T" and tr == "T":
                     return self.dispatch({"BitAnd": "and", "BitOr": "or", "BitXor": "xor"}[op], [(tl, l), (tr, r)])
@@ -280,7 +313,7 @@ class Tr:
                 if op == "Pow":
                     if isinstance(e.right, ast.Constant) and e.right.value == 2:
                         return "R", "(%s * %s)" % (l, l)
-                    raise Unsupported("power")
+                    return "R", "(Rpower %s %s)" % (l, r)     # real exponent: defined for a positive base
                 sym = {"Add": "+", "Sub": "-", "Mult": "*", "Div": "/"}.get(op)
                 if sym is None:
                     raise Unsupported("operator " + op)
@@ -326,7 +359,7 @@ class Tr:
         kinds = "".join(t for t, _ in args)
         for cand in (key + "#" + kinds,):
             if cand in self.defined:
-                cn, rty, _ = self.defined[cand]
+                cn, rty = self.defined[cand][:2]
                 return rty, "(%s %s)" % (cn, " ".join(x for _, x in args))
         raise Unsupported("operator method %s for kinds %s not translated yet" % (key, kinds))
 
@@ -463,6 +496,8 @@ PLAN = [
     ("tn.r_squared", "metrics.py", None, "r_squared", [("", {"gt": "T", "approx": "T"}, [])]),
     ("tn.var", "metrics.py", None, "var", [("", {"t": "T"}, ["marginals"])]),
     ("tn.std", "metrics.py", None, "std", [("", {"t": "T"}, [])]),
+    ("tn.raw_moment", "metrics.py", None, "raw_moment", [("", {"t": "T", "k": "N"}, ["marginals"])]),
+    ("tn.normalized_moment", "metrics.py", None, "normalized_moment", [("", {"t": "T", "k": "N"}, ["marginals"])]),
     ("tn.is_tautology", "logic.py", None, "is_tautology", [("", {"t": "T"}, [])]),
     ("tn.is_contradiction", "logic.py", None, "is_contradiction", [("", {"t": "T"}, [])]),
     ("tn.is_satisfiable", "logic.py", None, "is_satisfiable", [("", {"t": "T"}, [])]),
@@ -504,6 +539,7 @@ Variable b_at : bnds -> nat -> bnd.
 Variable t_partial : tensor -> nat -> nat -> bnd -> tensor.
 Variable t_pysum : list tensor -> tensor.
 Variable b_default : tensor -> nat -> bnd.
+Variable t_hsum : list tensor -> R.
 """
 
 
@@ -552,9 +588,9 @@ def main(repo, outdir):
             sig = " ".join("(%s : %s)" % (a, COQ_TY[kinds[a]]) for a in args)
             lines.append("Definition %s %s : %s :=\n  %s." % (coqname, sig, COQ_TY[rty], body))
             key = pyname + ("#" + suffix if cls else "")
-            defined[key] = (coqname, rty, [kinds[a] for a in args])
+            defined[key] = (coqname, rty, [kinds[a] for a in args], list(args))
             if not cls:
-                defined[pyname] = (coqname, rty, [kinds[a] for a in args])
+                defined[pyname] = (coqname, rty, [kinds[a] for a in args], list(args))
             report.append((coqname, "ok"))
     lines.append("End Gen.\n")
     os.makedirs(outdir, exist_ok=True)
